@@ -212,9 +212,14 @@ pub fn check_history(h: &History, rep: &mut Report) {
         let allowed = st == St::Active;
         if let Some(rc) = s.client.real() {
             let x = 100 + k as u16;
-            let attempts: [(&str, bool); 3] = [("write-pointer", false), ("write-key", false), ("try_write-pointer", true)];
+            let attempts: [(&str, bool); 6] = [("write-pointer", false), ("write-key", false), ("try_write-pointer", true), ("write-key-release", false), ("write-pointer-move", false), ("try_write-key-release", true)];
             for (name, lenient) in attempts.iter() {
-                let evn = if *name == "write-key" { RdpEvent::Key(KeyboardEvent { code: 0x1e, down: true }) } else { RdpEvent::Pointer(PointerEvent { x, y: 7, button: PointerButton::Left, down: true }) };
+                let evn = match *name {
+                    "write-key" => RdpEvent::Key(KeyboardEvent { code: 0x1e, down: true }),
+                    "write-key-release" | "try_write-key-release" => RdpEvent::Key(KeyboardEvent { code: 0x1e, down: false }),
+                    "write-pointer-move" => RdpEvent::Pointer(PointerEvent { x, y: 9, button: PointerButton::None, down: false }),
+                    _ => RdpEvent::Pointer(PointerEvent { x, y: 7, button: PointerButton::Left, down: true }),
+                };
                 let r = mon::guarded(|| if *lenient { rc.try_write(evn) } else { rc.write(evn) });
                 let r = match r {
                     Ok(r) => r.map_err(|e| crate::client::err_kind(&e)),
